@@ -51,7 +51,7 @@ RULE = (
 )
 EXHAUSTIVE = {
     "quick": "all 82,944 ordered pairs of the 288-URL mini universe (2 schemes x 2 ports x hosts {com, a.com, www.a.com, co.uk, a.co.uk, uk} x paths {'', '/', '/a', '/a/b'} x extras {'', '?q=1', '#f'}) x suffix_aware in {False, True}",
-    "thorough": "all 82,944 ordered pairs of the 288-URL mini universe x suffix_aware in {False, True}; all 1,440 x 1,440 ordered pairs of the single-scheme single-port slice of the full universe (45 hosts x 10 paths x ... sampled extras) are NOT exhaustive: sampled",
+    "thorough": "all 82,944 ordered pairs of the 288-URL mini universe (as in quick) x suffix_aware in {False, True}; the 7,600-URL universe is sampled (about 3.6 million pairs)",
 }
 TRUSTED = B.TRUSTED
 ASSUMPTIONS = [
@@ -123,6 +123,16 @@ CORPUS = [
     # query / fragment
     {"u": "http://a.com/?q=1", "vs": ["http://a.com/?q=1#f", "http://a.com/?q=12", "http://a.com/x?q=1", "http://a.com?q=1"], "sa": False},
     {"u": "http://a.com/#f", "vs": ["http://a.com/?q=1#f", "http://a.com/#f", "http://a.com/x#f"], "sa": False},
+    # default-looking ports are ports like any other
+    {"u": "http://a.com", "vs": ["http://a.com:80/x", "http://a.com:80", "https://a.com:443/x"], "sa": False},
+    {"u": "http://a.com:80", "vs": ["http://a.com/x", "http://a.com:80/x", "http://a.com:8080/x"], "sa": False},
+    {"u": "https://a.com:443/a", "vs": ["https://a.com/a/b", "https://a.com:443/a/b"], "sa": True},
+    # hosts without public suffix, suffix-aware
+    {"u": "http://localhost", "vs": ["http://a.localhost", "http://b.a.localhost/x"], "sa": True},
+    {"u": "http://a.localhost", "vs": ["http://b.a.localhost/x", "http://localhost"], "sa": True},
+    # v with userinfo below a section
+    {"u": "http://a.com/x", "vs": ["http://me@a.com/x/y", "http://me:pw@a.com/x?q=1", "http://me@a.com/y"], "sa": False},
+    {"u": "http://a.com/x", "vs": ["http://me@a.com/x/y", "http://me:pw@a.com/x?q=1", "http://me@a.com/y"], "sa": True},
     # empty port vs no port, scheme-less
     {"u": "http://a.com:", "vs": ["http://a.com/x", "http://a.com:/x"], "sa": False},
     {"u": "a.com", "vs": ["a.com/x", "http://a.com/x", "https://a.com/x", "//a.com/x"], "sa": False},
@@ -318,6 +328,9 @@ def pair_verdict(case, v):
     if is_prefix(cu, cv) != lcv.startswith(lcu):
         return "cleaned stems prefix is %s but serialised string prefix is %s" % (is_prefix(cu, cv), lcv.startswith(lcu))
     if not no_userinfo(A[1]):
+        return None
+    if spec_host_port(A[1])[1] == "" or spec_host_port(V[1])[1] == "":
+        # `host:` : is the empty port "the same port" as no port?  not decided by the statement
         return None
     if sa and not (split_law_ok(pu) and split_law_ok(pv)):
         return "assumption (C08): split_suffix parts do not re-join to the lower-cased host: %r / %r" % (spu, spv)
